@@ -98,7 +98,9 @@ fn show_err(e: &anyhow::Error) -> String {
     }
     if let Some(r) = msg.strip_prefix("line ") {
         let n = num(r);
-        let kind = if msg.contains("command extender") {
+        let kind = if msg.contains("expectation or exit code given") {
+            "body-no-shell"
+        } else if msg.contains("command extender") {
             "extender"
         } else if msg.contains("exit code provided multiple times") {
             "exit-twice"
@@ -131,7 +133,7 @@ struct Spec {
     tests: Vec<ST>,
     /// two exit codes below one command, or an expectation the maker rejects
     must_error: bool,
-    /// indented non-command lines with no command before them in their block
+    /// indented non-command lines with no command before them in their block (the document must not parse)
     orphans: usize,
 }
 
@@ -287,21 +289,18 @@ fn case(mk: &Arc<ExpectationMaker>, prop: &str, text: &str, indention: usize, bu
                 }
             }
             let got: Vec<ST> = tests.iter().map(st_of).collect();
-            if sp.must_error && sp.orphans == 0 {
+            if sp.orphans > 0 {
+                // since fix 67abd12 an indented line that is not below a command is an error
+                let adopted = got.len() == sp.tests.len() && got.iter().zip(sp.tests.iter()).any(|(g, w)| g.code != w.code || g.exps != w.exps);
+                fails.push(("C07:orphan-line-accepted".into(), format!("{} parsed although {} indented line(s) are not below a command{}", shown_doc(), sp.orphans, if adopted { " (and a later test adopted them)" } else { "" })));
+            } else if sp.must_error {
                 fails.push(("C07:missing-error".into(), format!("{} parsed although a test has two exit codes or an unparsable expectation", shown_doc())));
             } else if got.len() != sp.tests.len() {
                 fails.push(("C07:test-count".into(), format!("{}: {} tests, {} `$` lines", shown_doc(), got.len(), sp.tests.len())));
             } else {
                 for (g, w) in got.iter().zip(sp.tests.iter()) {
                     if !same_but_title(g, w) {
-                        let class = if sp.orphans > 0 && g.code != w.code {
-                            "C07:orphan-exit-code-adopted"
-                        } else if sp.orphans > 0 && g.exps != w.exps {
-                            "C07:orphan-expectation-adopted"
-                        } else {
-                            "C07:tests-differ"
-                        };
-                        fails.push((class.into(), format!("{}: test at line {} is cmd={:?} exps={:?} code={:?}, written: cmd={:?} exps={:?} code={:?} line={}", shown_doc(), g.line, g.cmd, g.exps, g.code, w.cmd, w.exps, w.code, w.line)));
+                        fails.push(("C07:tests-differ".into(), format!("{}: test at line {} is cmd={:?} exps={:?} code={:?}, written: cmd={:?} exps={:?} code={:?} line={}", shown_doc(), g.line, g.cmd, g.exps, g.code, w.cmd, w.exps, w.code, w.line)));
                     } else if g.title != w.title {
                         fails.push(("C07:title-differs".into(), format!("{}: test at line {} has title {:?}, last title line since the previous command is {:?}", shown_doc(), g.line, g.title, w.title)));
                     }
